@@ -161,6 +161,7 @@ def run(ctx: Ctx, entry_name: str) -> RuleResult:
             blocked |= {q for q in p.functions if q.startswith(b[:-1])}
         else:
             blocked.add(b)
+    note_moved(p)
     escapes, reached = ef.entry_escapes(roots, self_class=self_class, blocked=blocked, own_only=e.own_only)
     for q in e.must_reach:
         if q not in p.functions:
@@ -260,13 +261,29 @@ def _alpha(text: str, local_names) -> str:
         return text
 
 
+_MOVED: Dict[str, str] = {}
+
+
+def note_moved(p) -> None:
+    """table entries name functions by their home in the reference tree; a function that was moved to another module and
+    is imported back under the old name keeps its entries"""
+    _MOVED.clear()
+    for d in EXC_DISCHARGE:
+        q = d["fn"]
+        if q not in p.functions and q not in _MOVED:
+            mv = p.moved(q)
+            if mv is not None:
+                _MOVED[q] = mv.qualname
+
+
 def lookup_discharge(entry: str, fn: str, text: str, exc: str, kind: str = "", local_names=frozenset()) -> Optional[dict]:
     atext = None
     for d in EXC_DISCHARGE:
+        dfn = _MOVED.get(d["fn"], d["fn"])
         if "kind" in d:
-            if d["kind"] != kind or not (d["fn"] == fn or _same_module(d["fn"], fn)):
+            if d["kind"] != kind or not (dfn == fn or _same_module(dfn, fn)):
                 continue
-        elif not (d["fn"] == fn or _same_module(d["fn"], fn)):
+        elif not (dfn == fn or _same_module(dfn, fn)):
             continue
         elif d["text"] != text:
             if atext is None:
